@@ -348,6 +348,9 @@ type eEdgeSearch struct {
 	info      *types.Info
 	visit     func(n ast.Node, isCond bool) (bad bool, follow eFollow)
 	exitIsBad bool
+	// stopBlock (optional): a path that enters such a block is discharged (e.g. the head of a
+	// loop: the next iteration starts afresh).
+	stopBlock func(b *cfg.Block) bool
 }
 
 func (es *eEdgeSearch) run(b *cfg.Block, start int) []string {
@@ -397,6 +400,9 @@ func (es *eEdgeSearch) run(b *cfg.Block, start int) []string {
 				continue
 			}
 			seen[s] = true
+			if es.stopBlock != nil && es.stopBlock(s) {
+				continue
+			}
 			t := it.trail
 			if len(s.Nodes) > 0 {
 				t = append(append([]string(nil), it.trail...), es.c.Position(s.Nodes[0].Pos())+" ("+s.Kind.String()+")")
